@@ -326,3 +326,9 @@ Proof.
     cbn [pspec_matches]. rewrite !nkind_eqb_refl. cbn [svals_eqb andb].
     rewrite M. reflexivity.
 Qed.
+
+Theorem three_views_agree c t l :
+  ds_init_sharded repaired c t = Ok l ->
+  ds_declared repaired c t = Ok l /\
+  exists pl, ds_pspec repaired c t = Ok pl /\ pspec_matches l pl = true.
+Proof. intro H. split; [apply declared_is_init; exact H|apply pspec_matches_init; exact H]. Qed.
